@@ -465,14 +465,16 @@ def _classify_write(tmp, case, outcome):
                                  "mode": mode, "gz": gz, "wmode": case.get("wmode", "w"), "amode": case.get("amode", "a")},
                            tag="probe")["write"]
     tpart = "" if probe[0] != "ok" else ":" + case["type"]
-    if case.get("suffix") and case["suffix"] != SPECS[case["type"]].suffix:
-        std = evaluate_write(tmp, dict(case, suffix=None), tag="probe")["write"]
-        if std[0] == "ok":
-            tpart += ":suffix=" + case["suffix"]
-    if case.get("wmode", "w") != "w" or case.get("amode", "a") != "a":
+    w, a = case.get("wmode", "w"), case.get("amode", "a")
+    if w != "w" or a != "a":
         std = evaluate_write(tmp, dict(case, wmode="w", amode="a"), tag="probe")["write"]
-        if std[0] == "ok":
-            tpart += ":mode-spelling=%s/%s" % (case.get("wmode", "w"), case.get("amode", "a"))
+        if not _same(std, outcome):
+            if _same(evaluate_write(tmp, dict(case, wmode="w"), tag="probe")["write"], outcome):
+                tpart += ":amode=" + a
+            elif _same(evaluate_write(tmp, dict(case, amode="a"), tag="probe")["write"], outcome):
+                tpart += ":wmode=" + w
+            else:
+                tpart += ":mode-spelling=%s/%s" % (w, a)
     return "pieces-differ:%s%s%s%s" % (mode, zpart, tpart, tail)
 
 
@@ -484,9 +486,9 @@ def exec_write(col, tmp, case):
     w = res["write"]
     if w[0] != "ok":
         sig = classify_write(tmp, case, w)
-        if mode == "one" and case.get("suffix") and case["suffix"] != SPECS[case["type"]].suffix:
+        if case.get("suffix") and case["suffix"] != SPECS[case["type"]].suffix:
             std = evaluate_write(tmp, dict(case, suffix=None), tag="probe")["write"]
-            if std[0] == "ok":
+            if not _same(std, w):
                 sig += ":suffix=" + case["suffix"]
         col.fail(sig, case, w[2])
         return
@@ -502,7 +504,7 @@ def exec_write(col, tmp, case):
             sig = "read-back:" + _label(tmp, dict(case, gz=False), "readback", r) + zpart + (":exception:" + r[1] if r[0] == "exc" else "")
             if case.get("suffix") and case["suffix"] != SPECS[case["type"]].suffix:
                 std = evaluate_write(tmp, dict(case, suffix=None), tag="probe")["readback"]
-                if std is not None and std[0] == "ok":
+                if not _same(std, r):
                     sig += ":suffix=" + case["suffix"]
             col.fail(sig, case, r[2])
 
